@@ -1,14 +1,18 @@
 #!/usr/bin/env python3
 """Regenerates MANIFEST.json from props/*.py metadata (keeps it valid at all times)."""
 import importlib, json, os, sys
+_V = os.path.join(os.path.dirname(os.path.abspath(__file__)), ".venv", "bin", "python")
+if os.path.exists(_V) and os.path.realpath(sys.executable) != os.path.realpath(_V) and not os.environ.get("_TM_REEXEC"):
+    os.environ["_TM_REEXEC"] = "1"
+    os.execv(_V, [_V] + sys.argv)        # the props modules import z3 / jax: always run under the check's own interpreter
 sys.path.insert(0, os.path.dirname(os.path.abspath(__file__)))
 ALL = [f"C{i:02d}" for i in range(1, 21)]
 NA = {}
 checks, na = [], []
 for pid in ALL:
-    try:
-        pm = importlib.import_module(f"props.{pid}")
-    except ModuleNotFoundError:
+    if os.path.exists(os.path.join(os.path.dirname(os.path.abspath(__file__)), "props", pid + ".py")):
+        pm = importlib.import_module(f"props.{pid}")        # an import error of an existing check must not silently turn it into 'not applicable'
+    else:
         pm = None
     if pm is None or getattr(pm, "NOT_APPLICABLE", None):
         reason = getattr(pm, "NOT_APPLICABLE", None) or NA_REASON.get(pid) if False else (getattr(pm, "NOT_APPLICABLE", None) if pm else None)
